@@ -242,12 +242,36 @@ flow:
           at: end
 `
 
+// flowOn: Filter(header hdr=1) -> hit: GenerateResponse(status) | miss: pass
+func flowOn(name, url, hdr string, status int) string {
+	return strings.ReplaceAll(answerFlow(name, url, status), "x-probe=1", hdr+"=1")
+}
+
+func reqTo(id, url string) func(s *streams.Stream) string {
+	return func(s *streams.Stream) string {
+		return eng.OnRequest(s, eng.Req{ID: id, URL: url, Headers: map[string]string{"x-probe": "1"}}).String()
+	}
+}
+
 func moreScenarios() []scenario {
 	fw2 := eng.Files{Flows: map[string]string{"f.yaml": limiterFlow}, Quotas: map[string]string{"q.yaml": fixedQuota(2)}}
 	cx := eng.Files{Flows: map[string]string{"c.yaml": ctxFlow}}
 	qu := eng.Files{Flows: map[string]string{"q.yaml": queueFlow},
 		Quotas: map[string]string{"q.yaml": "quotas:\n  - id: Q\n    filter:\n      url: h.com/*\n    strategy:\n      fixed_window:\n        max: 1\n        interval: 1\n        interval_unit: second\n"}}
+	// three flows on a wildcard pattern (they let everything pass) and one flow on each of two
+	// literal URLs below it (each answers with its own status): the flow lists of the two
+	// transactions share the wildcard node's flows
+	nested := eng.Files{Flows: map[string]string{
+		"w1.yaml": flowOn("wide1", "h.com/*", "x-w1", 401), "w2.yaml": flowOn("wide2", "h.com/*", "x-w2", 402), "w3.yaml": flowOn("wide3", "h.com/*", "x-w3", 403),
+		"a.yaml": flowOn("onlyA", "h.com/a", "x-probe", 411), "b.yaml": flowOn("onlyB", "h.com/b", "x-probe", 412)}}
 	return []scenario{
+		{Name: "two-requests-nested-flows", Files: nested, Txns: []txn{{"A", reqTo("ta", "h.com/a")}, {"B", reqTo("tb", "h.com/b")}},
+			Extra: func(res []string) (string, string) {
+				if res[0] != "early(411)" || res[1] != "early(412)" {
+					return "WRONG-FLOW-RAN", fmt.Sprintf("transactions on h.com/a and h.com/b were answered %v; their own flows answer 411 and 412", res)
+				}
+				return "", ""
+			}},
 		{Name: "two-requests-transactional-context", Files: cx, WithCtxProc: true, Extra: ctxOracle,
 			Txns: []txn{{"T1", req("t1")}, {"T2", req("t2")}}},
 		{Name: "three-requests-limit2", Files: fw2, Txns: []txn{{"T1", req("t1")}, {"T2", req("t2")}, {"T3", req("t3")}}},
